@@ -282,6 +282,8 @@ var c14Tricky = []struct {
 	{"tl12", "func-lambda", `tl12 = (x, y) => { x = y; x == 1 || y == 2 }`, []string{`tl12(0, 2)`, `tl12(0, 0)`}},
 	{"tl13", "func-named", `func tl13(x) { y := x; y++; ++y; y - -x }`, []string{`tl13(3)`, `tl13(0)`}},
 	{"tl14", "func-lambda", `tl14 = x => { {"a": x}.a + 1 }`, []string{`tl14(3)`, `tl14(9)`}},
+	{"tl15", "func-lambda", `tl15 = x => { /* nothing but a comment */ }`, []string{`tl15(1)`}},
+	{"tl16alias", "func-lambda", "func tl16(x) { x + 1 }\ntl16alias = tl16", []string{`tl16alias(3)`, `tl16alias(-1)`}},
 }
 
 var c14Garbage = []string{`zz9=(x,;,p)=>1`, `{`, `"unterminated`, `/* open comment`, `)))`, `zz9=1/0`, `zz9=1<<(0-1)`, `zz9="abc"[0-5:2]`, `zz9=unquote(`, `func (`, `zz9=[1,2`, "\x00\x01\x02"}
